@@ -127,7 +127,7 @@ def main(ck):
         res, plug = tree.translate(jl, plugins=[PLUGIN], plugin_args={PLUGIN: {'mirror': tree.mirror}}, timeout=1200)
         return jl, res, plug
 
-    timeout = ck.pick(400, 2400)
+    timeout = ck.pick(900, 3000)
     with ThreadPoolExecutor(core.NCPU + 1) as ex:
         fl = ex.submit(live)
         outs = list(ex.map(lambda t: (t[0], run_worker(tree, t[1], t[0], timeout)), tasks))
